@@ -275,6 +275,7 @@ Accessible(vis, def, from, samecrate) ==
     [] vis = "pub"         -> TRUE                                   \* (all enclosing modules of the test crates are pub)
     [] vis = "pub(crate)"  -> samecrate
     [] vis = "pub(super)"  -> samecrate /\ IsPrefix(ParentOf(def), from)
+    [] vis = "pub(self)"   -> samecrate /\ IsPrefix(def, from)
     [] vis = "pub(in super::super)" -> samecrate /\ IsPrefix(ParentOf(ParentOf(def)), from)
     [] vis = "pub(in crate::cases)" -> samecrate /\ IsPrefix(<<"cases">>, from)
     [] vis = "pub(in crate::cases::p)" -> samecrate /\ IsPrefix(<<"cases", "p">>, from)      \* a multi-segment path: the parent of D
